@@ -120,6 +120,34 @@ def run(ctx):
             for verify in (0, 1):
                 lines += ["guard %d" % guard, "r_init 0 %s %d 0 fd" % (path, verify), "r_destroy 0", "---"]
                 meta.append((label, len(data), guard, verify))
+    # files of 4 GiB and more (sparse): sizes just above a multiple of 2^32, so that any 32-bit view of the size lies below
+    # the size of the trailer; zero bytes, the trailer of a valid small table at the end, and a valid table written by the real
+    # writer behind a sparse prefix that ends 300 bytes below 2^32. Opened through plain mmap (the guard seam copies the image).
+    big = []
+    valid = dict(cs)["small_v2_none"] if "small_v2_none" in dict(cs) else cs[0][1]
+    for base in ((1 << 32), (1 << 33)) if not ctx.quick() else ((1 << 32),):
+        for extra in (0, 1, 100, 300, 511, 512, 600):
+            for kind in ("zeros", "trailer"):
+                if kind == "trailer" and extra < 4:
+                    continue
+                path = os.path.join(wd, "big_%d_%d_%s" % (base >> 30, extra, kind))
+                with open(path, "wb") as f:
+                    f.truncate(base + extra)
+                    if kind == "trailer":
+                        tail = valid[-min(512, extra):]
+                        f.seek(base + extra - len(tail))
+                        f.write(tail)
+                big.append(("%s:%dGiB+%d" % (kind, base >> 30, extra), path))
+    vpath = os.path.join(wd, "big_valid.mtbl")
+    evs, rc, err = core.run_drv(b, "\n".join(["scratch " + wd, "w_init 0 %s none default 1024 2 -1 %d sparse" % (vpath, (1 << 32) - 300),
+                                              "w_add 0 61 G5x40", "w_add 0 62 G6x40", "w_close 0"]) + "\n", wd, "bigw")
+    if rc == 0 and os.path.exists(vpath):
+        big.append(("valid table across 4GiB (size %d)" % os.path.getsize(vpath), vpath))
+    for (label, path) in big:
+        for verify in (0, 1):
+            for fd in ("", " fd"):
+                lines += ["guard 0", "r_init 0 %s %d 0%s" % (path, verify, fd), "r_destroy 0", "---"]
+                meta.append((label, 1 << 30, 0, verify))
     recs = []
     B = 4000 * 4
     for i in range(0, len(lines), B):
